@@ -339,7 +339,7 @@ def variants(rng, base, n_random, threads_all):
 def generate(tier, rng):
     quick = tier != 'thorough'
     start_worker()
-    n_bases, n_zero, n_oh, n_random = (7, 2, 2, 6) if quick else (40, 10, 8, 30)
+    n_bases, n_zero, n_oh, n_random = (7, 2, 2, 6) if quick else (16, 5, 4, 20)
     for b in range(n_bases + n_zero + n_oh):
         if b < n_bases:
             base = gen_base(rng)
@@ -353,7 +353,7 @@ def generate(tier, rng):
             yield v
         if b >= n_bases + n_zero:
             k = len(base['Q'])
-            for _ in range(4 if quick else 12):
+            for _ in range(4 if quick else 8):
                 idxs = [rng.randrange(k) for _ in range(rng.randint(1, 6))]
                 yield dict(base, kind='variant', idxs=idxs, threads=rng.choice([1, 2, 5, 16]), chunk=0,
                            nn=rng.randint(1, len(base['T'])), poison='A', api='annotate')
